@@ -1,4 +1,5 @@
 """C09 - runs keep exact generation bookkeeping, budget and generational elitism; steady-state acceptance."""
+import os
 import random
 from hypothesis import strategies as st
 
@@ -51,7 +52,9 @@ def run_cases(draw):
             "landscape": draw(st.sampled_from(["smooth", "smooth", "plateau", "tiny"])),
             # start population: random, random on a coarse declared grid (repeated designs), or a custom list that
             # names a design twice
-            "start": draw(st.sampled_from(["random", "random", "grid", "custom-twins"]))}
+            "start": draw(st.sampled_from(["random", "random", "grid", "custom-twins"])),
+            # the run is recorded in an SQLite store as well: the stored record must show the same generations
+            "store": draw(st.sampled_from([False, False, True]))}
 
 
 def check_run(case):
@@ -92,9 +95,14 @@ def check_run(case):
         out = real_acc(self, individuals, individual)
         sizes.append((before, len(individuals)))
         return out
+    stored = None
     try:
         with Patched((Selector, "pop_acceptance", spy)):
             with guard("runs"):
+                if case.get("store"):
+                    from artap.datastore import SqliteDataStore
+                    db = os.path.join(prob.working_dir, "c09.sqlite")
+                    prob.data_store = SqliteDataStore(prob, database_name=db)
                 alg = algorithm_class(case["alg"])(prob)
                 alg.options["max_population_size"] = N
                 alg.options["max_population_number"] = G
@@ -110,6 +118,16 @@ def check_run(case):
                 alg.run()
         pops = prob.populations()
         pops = {k: list(v) for k, v in pops.items()}
+        if case.get("store"):
+            from artap.problem import ProblemViewDataStore
+            view = None
+            try:
+                with guard("runs"):
+                    view = ProblemViewDataStore(database_name=db)
+                    stored = {k: sorted(tuple(i.vector) for i in v) for k, v in view.populations().items()}
+            finally:
+                if view is not None:
+                    dispose(view)
     finally:
         dispose(prob)
     alg_name = case["alg"]
@@ -130,6 +148,17 @@ def check_run(case):
         if len(pops[g]) != N:
             raise Violation("runs", "%s:generation-size" % alg_name, "%s N=%d G=%d: generation %d has %d designs" % (
                 alg_name, N, G, g, len(pops[g])))
+    if stored is not None:
+        # every design the run recorded in generation g must be found in generation g of the stored record (the store
+        # also keeps evaluated designs that no generation retained - NSGA-II's rejected offspring - under other tags)
+        from collections import Counter
+        for g, members in sorted(pops.items()):
+            lost = Counter(tuple(i.vector) for i in members) - Counter(stored.get(g, []))
+            if lost:
+                raise Violation("runs", "%s:stored-record-incomplete" % alg_name, "%s N=%d G=%d: generation %d has %d "
+                                "recorded designs, the SQLite record read back shows %d of them (stored generation "
+                                "sizes %r)" % (alg_name, N, G, g, len(members), len(members) - sum(lost.values()),
+                                               {k: len(v) for k, v in sorted(stored.items())}))
     if alg_name == "NSGAII":
         for g in exp_keys:
             vs = [tuple(i.vector) for i in pops[g]]
@@ -163,7 +192,7 @@ def check_run(case):
     return {"nt": G >= 3 or bool(fail_vecs), "classes": [alg_name, "G>=3" if G >= 3 else "G<3",
                                                         "failures" if fail_vecs else "clean",
                                                         case.get("landscape", "smooth"), "start:" + case.get("start", "random")]
-            + (["twins-in-start"] if twins else [])}
+            + (["twins-in-start"] if twins else []) + (["sqlite-record"] if stored is not None else [])}
 
 
 # ---------------------------------------------------------------- pop_acceptance, unit level
